@@ -101,7 +101,7 @@ func short(c fw.Capability) string {
 // ---- dimensions ----
 
 var (
-	trustNames = []string{"anchor-found", "anchor-not-in-store", "store-load-error", "two-stores:anchor-found+load-error", "two-stores:load-error+anchor-found"}
+	trustNames = []string{"anchor-found", "anchor-not-in-store", "store-load-error", "two-stores:anchor-found+load-error", "two-stores:load-error+anchor-found", "only-a-store-of-the-other-type-listed(holding-the-anchor)", "store-loads-but-is-empty"}
 	identNames = []string{"wildcard", "pinned-match", "pinned-mismatch"}
 	expNames   = []string{"no-expiry", "expiry-future", "expiry-past"}
 	ctimeNames = []string{"chain-valid-now", "leaf-expired"}
@@ -367,6 +367,12 @@ func (w *world) run(lv vt.Level, c cell) observation {
 		if c.Trust == 4 {
 			listed = []string{storeType + ":broken", storeType + ":s"}
 		}
+	case 5: // no store of the type the scheme requires: the statement lists a store of the other type, which even holds the anchor
+		otherType := []string{"signingAuthority", "ca"}[c.Scheme]
+		ts.Put(otherType, "s", w.good.Root().Cert)
+		listed = []string{otherType + ":s"}
+	case 6: // the listed store loads without error and holds nothing
+		ts.Empty[storeType+":s"] = true
 	}
 	ids := []string{"*"}
 	switch c.Ident {
